@@ -92,7 +92,7 @@ def random_task(rng, kind, seed):
     t = dict(kind=kind, start=pts[0], imu=pts[1:] if kind == "fb" else pts, meas=meas, step=step, alt=alt,
              models=models, form=str(rng.choice(["list", "none", "empty"])), seed=int(seed),
              vd0=float(rng.choice([0.0, 3.0, -1.5])) if not alt else float(rng.choice([0.0, 0.5])),
-             inc=bool(models == "full" or rng.rand() < 0.4), far=bool(rng.rand() < 0.25))
+             inc=bool(models == "full" or rng.rand() < 0.4), far=bool(rng.rand() < 0.25), shuffle=bool(rng.rand() < 0.5), intidx=bool(rng.rand() < 0.3))
     return t
 
 
@@ -111,7 +111,7 @@ def task_from_cfg(kind, cfg, seed, rng):
     models = str(rng.choice(["none", "default", "bias", "full"]))
     return dict(kind=kind, start=TICK * pts[0], imu=[TICK * t for t in (pts[1:] if kind == "fb" else pts)], meas=meas,
                 step=TICK * step, alt=alt, models=models, form=str(rng.choice(["list", "none", "empty"])), seed=int(seed),
-                vd0=float(rng.choice([0.0, 3.0])) if not alt else 0.0, inc=bool(models == "full" or rng.rand() < 0.4), far=bool(rng.rand() < 0.25))
+                vd0=float(rng.choice([0.0, 3.0])) if not alt else 0.0, inc=bool(models == "full" or rng.rand() < 0.4), far=bool(rng.rand() < 0.25), shuffle=bool(rng.rand() < 0.5), intidx=bool(rng.rand() < 0.3))
 
 
 def corner_tasks(kind):
@@ -139,4 +139,6 @@ def corner_tasks(kind):
     T([0, 1, 2, 3], [("NedVelocity", [1.0, 2.0]), ("Position", [1.0, 2.0]), ("BodyVelocity", [2.0])], 1.0, alt=False, vd0=1.0)
     T([10, 10.5, 11, 11.5, 12], [("BodyVelocity", [10.25, 10.75, 11.25, 11.75])], 0.05, alt=False, models="bias")
     T([0, 1e-3, 2e-3, 3e-3], [("Position", [1.5e-3])], 1e-4)                        # step far below the interval
+    T([0, 1, 2, 3, 4, 5, 6], [("Position", [4, 2, 5]), ("NedVelocity", [3, 0, 2])], 2, intidx=True, shuffle=True)   # integer-typed, unsorted rows
+    T([10, 11, 13, 14, 20], [("BodyVelocity", [13, 10, 20])], 1, intidx=True, shuffle=True, alt=False, vd0=1.0)
     return out
